@@ -58,6 +58,57 @@ func runC11(c *Ctx) {
 	c11Done(c)
 	c11Autoconf(c)
 	c11WhoMay(c)
+	c11SysctlCause(c)
+}
+
+// c11SysctlCause (R-C11-6): the restore closure tolerates permission-denied
+// and vanished-interface failures by errors.Is on the error it gets from
+// State.SetIPv6Autoconf. On linux that error comes from os.WriteFile/ReadFile
+// through the sysctl helpers: they return it as is or wrapped with %w, never
+// flattened into text.
+func c11SysctlCause(c *Ctx) {
+	n := 0
+	for _, name := range []string{"sysctlEnable", "sysctlBool", "setIPv6Autoconf", "getIPv6Autoconf", "getIPv6Forwarding"} {
+		f := c.P.Func("internal/system", name)
+		if f == nil {
+			continue // linux only
+		}
+		fn := c.fname(f)
+		for _, p := range c.pathsO("R-C11-6", f, an.PathOpts{}) {
+			if p.Ret == nil {
+				continue
+			}
+			res := p.Results[len(p.Results)-1]
+			if exprIsNil(res) {
+				continue
+			}
+			// the failing os call or helper on this path
+			var cause *an.Expr
+			for _, a := range p.Atoms {
+				x, y, op, ok := effCmp(a)
+				if ok && exprIsNil(y) && op == token.NEQ && x.Typ != nil && typeStr(x.Typ) == "error" {
+					cause = x
+				}
+			}
+			okRes := false
+			if cause != nil {
+				cz := cause
+				okRes = wrapsCause(res, func(e *an.Expr) bool { return sameValue(e, cz) })
+			} else {
+				// returned directly: an os call or a sysctl helper result, or %w around one
+				okRes = wrapsCause(res, func(e *an.Expr) bool {
+					b, _ := stripExtract(e)
+					return (e.Op == an.OpCall || e.Op == an.OpExtract) && b != nil && b.Op == an.OpCall && b.Fn != nil && !(b.Fn.String() == "fmt.Errorf") && !strings.HasPrefix(b.Fn.String(), "errors.")
+				})
+			}
+			n++
+			c.R.Check(okRes, "R-C11-6", fn+":cause-kept-in-chain", fn, c.pos(p.Ret.Pos()), "returns "+res.String(),
+				"the os error is returned as is or wrapped with %w", "permission-denied / vanished-interface failures are no longer recognised: a tolerated restore failure becomes fatal")
+		}
+	}
+	if c.P.Cfg.GOOS == "linux" {
+		c.R.Check(n >= 3, "R-C11-6", "system:sysctl-error-returns", "", "", fmt.Sprintf("%d failing return path(s)", n), ">= 3", "anchor-missing")
+	}
 }
 
 func c11Dial(c *Ctx) {
